@@ -112,7 +112,7 @@ def cond_to_intset(test: ast.AST, is_var: Callable[[ast.AST], bool], fold: Calla
         v = fold(test)
     except Exception:  # noqa: BLE001
         v = None
-    if isinstance(v, bool):
+    if v is not None and type(v).__name__ != "_Unknown" and isinstance(v, (bool, int, str, list, tuple, dict, set)):
         return IntSet.all() if v else IntSet.empty()
     raise NotInterval(ast.dump(test))
 
